@@ -217,7 +217,12 @@ def check_student(ctx):
             ok = None
         ctx.decide('VERD-AGG', boolm, f'__bool__: return {txt(ret.value)}',
                    ok, at=boolm.where(ret),
-                   detail={'form': form, 'required': ['forall', 1]})
+                   detail={'form': form, 'required': ['forall', 1],
+                           'why': 'builtin min()/max() skip or keep a NaN '
+                                  'depending on its position: an undefined '
+                                  'bin / dataset may pass'
+                           if form and str(form[0]).startswith('nan-unsafe')
+                           else None})
     oracles = res.methods.get('oracles')
     if oracles is not None:
         for ret in _returns(oracles):
@@ -368,6 +373,46 @@ def _check_nan_both(ctx, tst):
                   'constant')
     ctx.floor('NAN-BOTH', n, 2, 'NaN-masked stores / returns in '
               'student_test')
+    _check_scale_free(ctx, meth)
+
+
+TOLERANCE_CALLS = {'isclose', 'allclose', 'approx', 'assert_allclose',
+                   'assert_almost_equal', 'around', 'round', 'round_',
+                   'rint', 'trunc', 'finfo'}
+
+
+def _check_scale_free(ctx, meth):
+    '''The special cases of the statistic (0/0, undefined on both sides)
+    are selected by EXACT comparisons with zero: a tolerance (np.isclose,
+    abs(x) < eps, rounding) introduces an absolute scale and breaks the
+    invariance of the verdict under a common positive rescaling.'''
+    bad = []
+    for node in ast.walk(meth.node):
+        if isinstance(node, ast.Call) and call_name(node) in \
+                TOLERANCE_CALLS:
+            bad.append((node, f'{txt(node)[:50]}'))
+        if isinstance(node, ast.Compare) and len(node.ops) == 1 and \
+                isinstance(node.ops[0], (ast.Lt, ast.LtE, ast.Gt, ast.GtE)):
+            for side in (node.left, node.comparators[0]):
+                if isinstance(side, ast.Constant) and isinstance(
+                        side.value, float) and 0 < abs(side.value) < 1e-3:
+                    bad.append((node, f'{txt(node)[:50]}'))
+    exact = [n for n in ast.walk(meth.node) if isinstance(n, ast.Compare)
+             and len(n.ops) == 1 and isinstance(n.ops[0], ast.Eq) and
+             isinstance(n.comparators[0], ast.Constant) and
+             n.comparators[0].value == 0]
+    for node, what in bad[:3]:
+        ctx.violated('SCALE-FREE', meth, f'{meth.name}: tolerance {what}',
+                     at=meth.where(node),
+                     detail='an absolute tolerance in the computation of '
+                            'the statistic: datasets that differ by less '
+                            'than it (values of small magnitude) are '
+                            'treated as equal, the verdict changes under a '
+                            'common rescaling')
+    if not bad:
+        ctx.holds('SCALE-FREE', meth, f'{meth.name}: special cases selected '
+                  f'by {len(exact)} exact comparison(s) with zero, no '
+                  f'tolerance', at=meth.where(), nontrivial=bool(exact))
 
 
 # ---------------------------------------------------------------- C06 ---
